@@ -1,5 +1,5 @@
 """Source of truth for MANIFEST.json (run tools/gen_manifest.py after editing)."""
-SOURCE_COMMITS = ["472f3d5", "0f80483", "29ef46c", "c52c224", "5831e59", "4bfa3bb", "c9eab00", "798134f", "ff9c3a5", "316695c", "6704cd2", "92e5086", "0feff27", "e17b02d", "a0ca575", "825bf70", "59e6984", "cabaf56", "8639232", "f1c6cb0", "790b4f3", "0e82b18", "c0a5f23", "52469a7", "5ae6534", "526b433", "3f99433", "e608a53", "680702b", "7b7a320", "1389807", "ba1d3d1"]   # all "fix:" commits (no hooks)
+SOURCE_COMMITS = ["472f3d5", "0f80483", "29ef46c", "c52c224", "5831e59", "4bfa3bb", "c9eab00", "798134f", "ff9c3a5", "316695c", "6704cd2", "92e5086", "0feff27", "e17b02d", "a0ca575", "825bf70", "59e6984", "cabaf56", "8639232", "f1c6cb0", "790b4f3", "0e82b18", "c0a5f23", "52469a7", "5ae6534", "526b433", "3f99433", "e608a53", "680702b", "7b7a320", "1389807", "ba1d3d1", "3043b4a"]   # all "fix:" commits (no hooks)
 NOTES = ("Static analysis only. Every check parses /repo's working tree with Python's ast module (and re._parser for "
          "regular-expression syntax trees) and never imports or runs pycparser. Exit 0 ok / 1 VIOLATION / 2 ANALYSIS-ERROR "
          "(fail closed). Known genuine defects are listed in known_findings.json and printed as KNOWN-FINDING lines.")
